@@ -48,6 +48,8 @@ def run(chk, F):
     chk.guard("mirror-structure", "eval", lambda: mirror(chk, F))
     chk.guard("gates", "eval", lambda: gates(chk, F))
     chk.guard("aliases", "lexer", lambda: aliases(chk, F))
+    import c03
+    chk.guard("target-consumed", "parse_query", lambda: c03.target_consumed(chk, F))
 
 
 def data_table(chk, F):
